@@ -171,3 +171,31 @@ func VfPolicyWitness() {
 	_ = VerifyBucketPolicy(doc, "caller", "bkt", "obj", GetObjectAction)
 	zzvf.Fail("witness")
 }
+
+// VfPolicyResource: C14 / C03 – the resource string the policy is evaluated on is exactly bucket + "/" + key (the bucket
+// alone for bucket-level requests): VerifyBucketPolicy (real code, no stand-ins) on a one-statement Allow policy for
+// everybody and every action whose resource pattern is one of a small set, for an arbitrary key of up to 3 (4) bytes
+// (including "/", "." sequences, trailing slashes). Oracle: allowed exactly when the pattern globs the exact string
+// (Resources.Match itself is checked against the reference glob by H14a).
+func VfPolicyResource() {
+	n := 3 + zzvf.Tier()
+	zzvf.Bound("key_len_max", n)
+	patterns := []string{"bkt/*", "bkt/a/*", "bkt/a?", "bkt/a", "bkt", "bkt/*/"}
+	pat := patterns[zzvf.Choice("resource_pattern", len(patterns))]
+	key := zzvf.String("key", n)
+	bp := BucketPolicy{Statement: []BucketPolicyItem{{Effect: BucketPolicyAccessTypeAllow, Principals: Principals{"*": struct{}{}},
+		Actions: Actions{AllActions: struct{}{}}, Resources: Resources{pat: struct{}{}}}}}
+	doc, _ := json.Marshal(bp)
+	err := VerifyBucketPolicy(doc, "caller", "bkt", key, GetObjectAction)
+	exact := "bkt"
+	if key != "" {
+		exact = "bkt/" + key
+	}
+	want := Resources{}.Match(pat, exact)
+	if err == nil {
+		zzvf.Reach("allowed")
+	} else {
+		zzvf.Reach("denied")
+	}
+	zzvf.Assert((err == nil) == want, "policy-is-evaluated-on-the-exact-resource-string")
+}
